@@ -208,6 +208,79 @@ def bookkeeping_faults(pr, stats, add17):
             add17('C17|%s|fault-in-bookkeeping-save' % clause, pr, k, detail)
 
 
+def command_faults(start, steps, rows, stats, add7, add17):
+    """The same fault enumeration through the `evolve --execute` command
+    (evolutions on disk): a fault at any statement - the batch's or the
+    bookkeeping's - must make the command fail, the error output must show
+    the statement that failed, and the database must be as before."""
+    from vf import engine_b
+    hist = engine_b.History(start, [('va', 'e1', [mj for _l, mj in steps])])
+    hist.install(0)
+    B.fresh_db('default')
+    B.reset_globals()
+    if not engine_b.upgrade('D2').ok:
+        return
+    from vf import rows as RW
+    RW.populate(start, rows, 'default')
+    image = B.snapshot('default')
+    hist.install(1)
+    pre = EB.canonical_state(1)
+
+    class _PR(object):      # what the replay record needs
+        pass
+    pr = _PR()
+    pr.start, pr.steps, pr.rows, pr.extra = start, steps, rows, 'command'
+    pr.purge, pr.db = False, 'default'
+    for bookkeeping in (False, True):
+        if bookkeeping:
+            match = lambda q: ('"django_project_version"' in q or
+                               '"django_evolution"' in q)
+        else:
+            match = lambda q: not acceptor.is_bookkeeping(q)
+        B.restore(image, 'default')
+        B.reset_globals()
+        t0 = O.Tracer('default', match=match)
+        r0 = D.d3(tracer=t0)
+        if not r0.ok:
+            return
+        effects = t0.effects()
+        stats['programs'] += 1
+        for k in range(1, len(effects) + 1):
+            B.restore(image, 'default')
+            B.reset_globals()
+            seq = [0]
+            tr = O.Tracer('default', fault_at=k, seq=seq, match=match)
+            with O.SignalLog(seq) as log:
+                res = D.d3(tracer=tr)
+            stats['runs'] += 1
+            stats['faulted_runs'] += 1
+            sk = effects[k - 1]
+            where = stmt_shape(sk[0]) + '|command' + (
+                '|bookkeeping' if bookkeeping else '')
+            names = [e[1] for e in log.events]
+            if res.ok:
+                add7('C07|fault-swallowed|%s' % where, pr, k,
+                     {'statement': sk[0]})
+                if 'evolving_failed' in names:
+                    add17('C17|command-reports-success-although-'
+                          'evolving_failed-was-sent|%s' % where, pr, k,
+                          {'stdout': res.stdout[-200:]})
+                continue
+            if res.exc_type != 'CommandError':
+                add7('C07|error-not-a-CommandError|%s|%s' % (
+                    res.exc_type, where), pr, k,
+                    {'error': str(res.exc)[:200]})
+            elif not bookkeeping and sk[0] not in (
+                    getattr(res, 'stderr', '') + str(res.exc)):
+                add7('C07|error-does-not-identify-statement|%s' % where, pr,
+                     k, {'stderr': getattr(res, 'stderr', '')[:300],
+                         'failed': sk[0]})
+            if not bookkeeping and EB.canonical_state(1) != pre:
+                add7('C07|state-changed-after-failed-run|%s|%s' % (
+                    diff_kind(pre, EB.canonical_state(1)), where), pr, k,
+                    {'statement': sk[0]})
+
+
 def stmt_shape(sql):
     s = sql.strip()
     up = s.upper()
@@ -268,6 +341,9 @@ def work(task):
                 if size < ent['size']:
                     ent.update(exemplar=replay, detail=detail, size=size)
         return add
+    if extra == 'command':
+        command_faults(start, steps, rows, stats, adder(v7), adder(v17))
+        return name, stats, v7, v17
     pr = ProgramRun(start, steps, rows, extra, purge=purge, db=db)
     judge_program(pr, stats, adder(v7), adder(v17))
     if stats['faulted_runs']:
@@ -316,6 +392,9 @@ def tasks_for(tier):
         add('narrow-d2', narrow, 2, 'lite', KINDS, (False,))
         add('two-model-d1', two, 1, 'full', None, (False,))
         tasks.append(('new-model-only', narrow, [], 'R2', True))
+        # the same through the evolve command, bookkeeping faults included
+        for i, steps in enumerate(gen_programs(narrow, 1, 'lite', KINDS)):
+            tasks.append(('cmd#%d' % i, narrow, steps, 'R2', 'command'))
         # two brand-new apps whose models are created in one batch, alone
         # and together with an evolution
         tasks.append(('two-new-apps-only', narrow, [], 'R2', 'two-apps'))
@@ -348,6 +427,8 @@ def tasks_for(tier):
         for i, steps in enumerate(gen_programs(narrow, 2, 'lite', KINDS)):
             tasks.append(('two-new-apps#%d' % i, narrow, steps, 'R2',
                           'two-apps'))
+        for i, steps in enumerate(gen_programs(narrow, 2, 'lite', KINDS)):
+            tasks.append(('cmd#%d' % i, narrow, steps, 'R2', 'command'))
     return tasks
 
 
